@@ -139,7 +139,7 @@ func c13Round(r *rep.Run, h *drive.Harness, c *c13case, o drive.Opt, stats *[3]i
 
 func c13(r *rep.Run) {
 	strLen, progMax := 2, 5
-	r.SetBudget(120e9)
+	r.SetBudget(300e9)
 	if r.Thorough() {
 		strLen, progMax = 3, 6
 		r.SetBudget(1800e9)
